@@ -52,10 +52,10 @@ Proof. exact DiskProofs.flush_conforms_nodup. Qed.
 Print Assumptions c14_flush_conforms.
 
 (* ---------------------------------------------------------------------------------------------- *)
-(* REGENERATED FROM THE SOURCE ON EVERY RUN (tools/gen -> Generated.g_code; Decisions.v): the decisions the model
+(* REGENERATED FROM THE SOURCE ON EVERY RUN (tools/gen -> Generated.g_code; DecBase.v, Dec*.v): the decisions the model
    takes at these points are the evaluations of the conditions the Go source has there, for all values of their
    variables. *)
-From GK Require Import GExpr Generated Decisions.
+From GK Require Import GExpr Generated DecBase DecRecord DecWrite.
 From Coq Require Import String.
 
 (* the record checks of itemLoc.read and of the root record, and the empty location, as in Codec.v *)
@@ -64,27 +64,27 @@ Theorem c14_item_length_check_is_source :
     forall len kl vl : Z,
       gtrue (upd (upd (upd env0 "ds.getLength()" len) "uint32(keyLength)" kl) "valLength" vl) c =
       Some (negb (Z.eqb len (item_hdr_len + kl + vl))).
-Proof. exact Decisions.item_length_check_decision. Qed.
+Proof. exact DecRecord.item_length_check_decision. Qed.
 Print Assumptions c14_item_length_check_is_source.
 Theorem c14_item_short_loc_is_source :
   exists c, decisions "itemLoc.read" "loc.Length" = [c] /\
     forall l : Z, gtrue (upd env0 "loc.Length" l) c = Some (Z.ltb l item_hdr_len).
-Proof. exact Decisions.item_short_loc_decision. Qed.
+Proof. exact DecRecord.item_short_loc_decision. Qed.
 Print Assumptions c14_item_short_loc_is_source.
 Theorem c14_ploc_is_empty_is_source :
   exists c, choice_of "ploc.isEmpty" = Some c /\
     forall o l : Z, gtrue (upd (upd (upd env0 "p" 1%Z) "p.Offset" o) "p.Length" l) c = Some (Z.eqb o 0 && Z.eqb l 0).
-Proof. exact Decisions.ploc_is_empty_decision. Qed.
+Proof. exact DecRecord.ploc_is_empty_decision. Qed.
 Print Assumptions c14_ploc_is_empty_is_source.
 Theorem c14_root_version_is_source :
   exists c, decisions "Store.validateAndSetCollections" "version" = [c] /\
     forall v : Z, gtrue (upd env0 "version" v) c = Some (negb (Z.eqb v version)).
-Proof. exact Decisions.root_version_decision. Qed.
+Proof. exact DecRecord.root_version_decision. Qed.
 Print Assumptions c14_root_version_is_source.
 Theorem c14_root_length_is_source :
   exists c, decisions "Store.validateAndSetCollections" "length0" = [c] /\
     forall a b : Z, gtrue (upd (upd env0 "length0" a) "length" b) c = Some (negb (Z.eqb a b)).
-Proof. exact Decisions.root_length_decision. Qed.
+Proof. exact DecRecord.root_length_decision. Qed.
 Print Assumptions c14_root_length_is_source.
 
 (* record writes in the source: offset taken after the before-write hook, header+key, value, then size and location *)
@@ -97,5 +97,5 @@ Theorem c14_item_write_order_is_source :
   before "atomic.StoreInt64" "iloc.setLoc" l = true /\
   before "iItem.NumValBytes" "c.store.file.WriteAt" l = true /\
   before "c.store.callbacks.BeforeItemWrite" "iItem.NumValBytes" l = true.
-Proof. exact Decisions.item_write_order. Qed.
+Proof. exact DecWrite.item_write_order. Qed.
 Print Assumptions c14_item_write_order_is_source.
